@@ -14,6 +14,8 @@ package c13
 
 import (
 	"context"
+	"database/sql"
+	"database/sql/driver"
 	"errors"
 	"fmt"
 	"sort"
@@ -509,9 +511,42 @@ type invocation struct {
 }
 
 type runState struct {
-	c    *Case
-	fail int // invocation index that returns an error (-1: none)
-	invs []invocation
+	c        *Case
+	fail     int    // invocation index that returns an error (-1: none)
+	failKind string // which error value it returns
+	invs     []invocation
+}
+
+// The error VALUES a failing hook returns. A hook may well fail with an error gorm knows (a lookup
+// inside the hook returning ErrRecordNotFound, a cancelled context, ...): none of them may be
+// mistaken for one of the operation's own conditions.
+var failKinds = []string{"sentinel", "notfound", "wrapped-notfound", "canceled", "norows", "txdone", "invalidtx", "badconn"}
+
+// failValue is the error identity errors.Is must find in what the operation returns.
+func failValue(kind string) error {
+	switch kind {
+	case "notfound", "wrapped-notfound":
+		return gorm.ErrRecordNotFound
+	case "canceled":
+		return context.Canceled
+	case "norows":
+		return sql.ErrNoRows
+	case "txdone":
+		return sql.ErrTxDone
+	case "invalidtx":
+		return gorm.ErrInvalidTransaction
+	case "badconn":
+		return driver.ErrBadConn
+	}
+	return errHook
+}
+
+func failError(kind string, n int, model, name, tag string) error {
+	switch kind {
+	case "", "sentinel", "wrapped-notfound":
+		return fmt.Errorf("hook #%d %s.%s(%s): %w", n, model, name, tag, failValue(kind))
+	}
+	return failValue(kind) // the bare value, as `return tx.First(&x).Error` would hand it back
 }
 
 var cur *runState
@@ -553,7 +588,7 @@ func (r *runState) hook(tx *gorm.DB, model, name string, ptr unsafe.Pointer, tag
 		}
 	}
 	if n == r.fail {
-		return fmt.Errorf("hook #%d %s.%s(%s): %w", n, model, name, tag, errHook)
+		return failError(r.failKind, n, model, name, tag)
 	}
 	return nil
 }
@@ -623,6 +658,8 @@ const (
 )
 
 type Case struct {
+	FailWith    string // write operations: the error value failing hooks return (query operations try every value)
+	Raw         bool   // find / first / take: the SQL is given with db.Raw(..), gorm builds no clauses
 	Handle      string // flavour of the handle the operation starts from: "" | "withcontext" | "session-initialized" | "session-newdb" | "debug"
 	AuditCreate bool   // with Audit: the side row is stored by tx.Create(&AuditRow{}) instead of tx.Exec
 	History     string // what happened to the handle before: "" | "sibling-skiphooks" | "after-updatecolumn"
@@ -687,6 +724,12 @@ func (r RecSpec) String() string {
 func (c Case) String() string {
 	var b strings.Builder
 	fmt.Fprintf(&b, "%s seed=%v %s %s", c.kit().name, c.Seed, c.Op, c.Shape)
+	if c.Raw {
+		b.WriteString(" Raw-SQL")
+	}
+	if c.FailWith != "" && c.FailWith != "sentinel" {
+		b.WriteString(" hooks-fail-with=" + c.FailWith)
+	}
 	if c.Via != "" {
 		b.WriteString(" via=" + c.Via)
 	}
@@ -1286,10 +1329,13 @@ func (c *Case) exec(db *gorm.DB, m *memory) *gorm.DB {
 		var tx *gorm.DB
 		if c.Via == "firstorinit" || c.Via == "firstorcreate" {
 			tx = db.Where(map[string]interface{}{"tag": c.CondTag})
+		} else if c.Raw {
+			// the caller's own SQL: no clause is built, the query callbacks still run
+			tx = db.Raw("SELECT * FROM "+c.kit().table+" WHERE id IN ? ORDER BY id", c.IDs)
 		} else {
 			tx = db.Where("id IN ?", c.IDs)
 		}
-		if (c.Op == opFind && c.Via == "") || c.Via == "take" {
+		if !c.Raw && ((c.Op == opFind && c.Via == "") || c.Via == "take") {
 			tx = tx.Order("id") // First / Last / FindInBatches order by the primary key themselves
 		}
 		for _, p := range c.Preload {
@@ -1534,13 +1580,16 @@ type runResult struct {
 }
 
 // runOnce executes the case on a fresh database with the failAt-th hook invocation failing.
-func runOnce(c *Case, failAt int) (res runResult, problems []string) {
+func runOnce(c *Case, failAt int, failKind ...string) (res runResult, problems []string) {
 	d := openDB(c)
 	defer d.Close()
 	_, res.Before = dump(d, c)
 	m := build(c)
 	res.Mem = m
 	rs := &runState{c: c, fail: failAt}
+	if len(failKind) > 0 {
+		rs.failKind = failKind[0]
+	}
 	cur = rs
 	defer func() { cur = nil }()
 	d.Rec.Reset()
@@ -1986,13 +2035,13 @@ func checkTx(c *Case, ex expectation, res runResult, faulted bool) []string {
 }
 
 // checkFaulted judges the run in which invocation h failed, against the fault-free run.
-func checkFaulted(c *Case, ex expectation, base, res runResult, h int) []string {
+func checkFaulted(c *Case, ex expectation, base, res runResult, h int, kind string) []string {
 	var v []string
 	bad := func(format string, a ...interface{}) { v = append(v, fmt.Sprintf(format, a...)) }
 	if res.Err == nil {
 		bad("the hook error was swallowed: the operation returned nil")
-	} else if !errors.Is(res.Err, errHook) {
-		bad("the operation returned %q, which does not wrap the hook's error", res.Err)
+	} else if !errors.Is(res.Err, failValue(kind)) {
+		bad("the operation returned %q, which does not wrap the hook's error (%v)", res.Err, failValue(kind))
 	}
 	if c.rollsBack() && res.Before != res.After {
 		bad("the database changed although the operation failed:\n   before: %s\n   after:  %s", res.Before, res.After)
@@ -2409,6 +2458,9 @@ func caseClasses(c *Case) []string {
 	if c.Via != "" {
 		cl = append(cl, "via:"+c.Via)
 	}
+	if c.Raw {
+		cl = append(cl, "raw-sql")
+	}
 	if c.AuditCreate {
 		cl = append(cl, "hooks-write-audits-by-create")
 	}
@@ -2511,19 +2563,28 @@ func checkCase(t failer, c *Case) {
 	if len(viol) > 0 {
 		fail(base, -1, viol)
 	}
-	for h := 0; h < H; h++ {
-		res, problems := runOnce(c, h)
-		viol := append(problems, checkFaulted(c, ex, base, res, h)...)
+	kinds := []string{c.FailWith}
+	if c.FailWith == "" {
+		kinds = []string{"sentinel"}
+	}
+	if c.Op == opFind || c.Op == opFirst {
+		kinds = failKinds // reads are cheap: every error value at every invocation
+	}
+	for hk := 0; hk < H*len(kinds); hk++ {
+		h, kind := hk/len(kinds), kinds[hk%len(kinds)]
+		res, problems := runOnce(c, h, kind)
+		viol := append(problems, checkFaulted(c, ex, base, res, h, kind)...)
 		iv := base.Invs[h]
-		fc := []string{"run:faulted", "fail:" + iv.Model + "." + iv.Hook}
+		fc := []string{"run:faulted", "fail:" + iv.Model + "." + iv.Hook, "fail-with:" + kind}
 		if h == 0 {
 			fc = append(fc, "fail:first-invocation")
 		}
 		if h == H-1 {
 			fc = append(fc, "fail:last-invocation")
 		}
-		evid.Case(fmt.Sprintf("%s fail@%d/%d", desc, h, H), nt || h > 0, nil, append(classes, fc...)...)
+		evid.Case(fmt.Sprintf("%s fail@%d/%d with %s", desc, h, H, kind), nt || h > 0, nil, append(classes, fc...)...)
 		if len(viol) > 0 {
+			viol[0] = fmt.Sprintf("[hook fails with %s] %s", kind, viol[0])
 			fail(res, h, viol)
 		}
 	}
@@ -2547,7 +2608,7 @@ func bucket(n int) string {
 
 // ---- generator ----------------------------------------------------------------------------------
 
-var enabledOps = []string{opCreate, opCreate, opCreate, opCreateBatches, opSave, opSave, opUpdates, opUpdates, opUpdate, opUpdateColumn, opUpdateColumns, opDelete, opDelete, opFind, opFind, opFirst, opFirst, opPluck}
+var enabledOps = []string{opFirst, opCreate, opCreate, opCreate, opCreateBatches, opSave, opSave, opUpdates, opUpdates, opUpdate, opUpdateColumn, opUpdateColumns, opDelete, opDelete, opFind, opFind, opFirst, opFirst, opPluck}
 
 // maxRecords: argument lengths 0..5 in the quick tier, 0..8 in the thorough tier.
 func maxRecords() int {
@@ -2836,7 +2897,7 @@ func drawCase(t *rapid.T) *Case {
 			c.Batch = rapid.IntRange(1, 3).Draw(t, "batch")
 		}
 		if c.Op == opFirst {
-			c.Via = rapid.SampledFrom([]string{"", "", "take", "last", "firstorinit", "firstorcreate", "firstorcreate"}).Draw(t, "finder")
+			c.Via = rapid.SampledFrom([]string{"", "", "take", "last", "firstorinit", "firstorcreate", "firstorcreate", "firstorcreate"}).Draw(t, "finder")
 			if c.Via == "firstorinit" || c.Via == "firstorcreate" {
 				c.IDs = []uint{}
 				c.CondTag = "fresh"
@@ -2845,7 +2906,10 @@ func drawCase(t *rapid.T) *Case {
 				}
 			}
 		}
-		if k.hasKids && c.CondTag == "" {
+		if (c.Via == "" || c.Via == "take") && rapid.IntRange(0, 2).Draw(t, "raw-sql") == 0 {
+			c.Raw = true
+		}
+		if k.hasKids && c.CondTag == "" && !c.Raw {
 			switch rapid.IntRange(0, 5).Draw(t, "preload") {
 			case 0:
 				c.Preload = []string{"Kids"}
@@ -2898,6 +2962,9 @@ func drawCase(t *rapid.T) *Case {
 		hist = append(hist, "after-updatecolumn", "after-updatecolumn")
 	}
 	c.History = rapid.SampledFrom(hist).Draw(t, "history")
+	if c.Op != opFind && c.Op != opFirst && c.Op != opPluck {
+		c.FailWith = rapid.SampledFrom([]string{"sentinel", "sentinel", "sentinel", "notfound", "notfound", "wrapped-notfound", "canceled", "norows", "txdone", "invalidtx", "badconn"}).Draw(t, "fail-with")
+	}
 	c.Handle = rapid.SampledFrom([]string{"", "", "", "", "withcontext", "session-initialized", "session-newdb", "debug"}).Draw(t, "handle")
 	if c.Op == opDelete && k.soft {
 		c.Unscoped = rapid.IntRange(0, 2).Draw(t, "unscoped") == 0
@@ -2924,11 +2991,12 @@ const rule = "C13: rapid draws a top-level model type - Parent (all nine hooks; 
 	"Create (struct, pointer/value slices, array, map, slice of maps; optional OnConflict{DoNothing|UpdateAll}; Session{CreateBatchSize}) / CreateInBatches / Save (new, existing, missing keys); " +
 	"Model(&T | &[]T | &[]*T | &[2]T | &T{}+Where/primary keys).Updates(struct|map) / Update / UpdateColumn / UpdateColumns, db.Updates(&T), optionally with new children in the model, clause.Returning, the caller writing the column the hook sets; " +
 	"Delete of &T, slices, array or a zero value with an inline / chained / primary-key condition, optional Select(Kids|Desk|Friends), clause.Returning, Unscoped on the soft-delete model; " +
-	"Find / FindInBatches / First / Take / Last / FirstOrInit / FirstOrCreate with optional Preload, and Pluck / Count; " +
+	"Find / FindInBatches / First / Take / Last / FirstOrInit / FirstOrCreate with optional Preload, Find / First / Take over the caller's own db.Raw(..) SQL, and Pluck / Count; " +
 	"with or without Session{SkipHooks}, default transaction on or SkipDefaultTransaction (Config or Session), PrepareStmt (Config or Session), dialector with or without RETURNING, FullSaveAssociations, DisableNestedTransaction, " +
 	"outside or inside a caller transaction (Begin, Transaction closure, nested Transaction = save point), from a plain / WithContext / Session{Initialized} / Session{NewDB} / Debug handle, after a sibling SkipHooks session or a column update on the same reusable handle; " +
 	"a before-hook of Parent may set Name directly or through Statement.SetColumn; hooks of a write may also store a side row through their handle (Exec or a nested gorm Create). " +
 	"The operation runs fault-free once (H hook invocations; event-log grammar, transaction identity and stored values checked), then EVERY h<H is run with the h-th invocation returning an error, each from an identical fresh database " +
+	"- the failing hook returns its own sentinel, gorm.ErrRecordNotFound bare or wrapped, context.Canceled, sql.ErrNoRows, sql.ErrTxDone, gorm.ErrInvalidTransaction or driver.ErrBadConn (every value for reads, one drawn value per write case) - " +
 	"(error returned, identical prefix, no statement and no hook of another phase after the failure, no commit, database dump unchanged unless the operation was told to run without a transaction). " +
 	"One evaluation = one run. Non-trivial = at least two hooked records or hooked children, or the failing invocation is not the first. Distinct = model + initial rows + operation + argument shape + records + options + failing index."
 
